@@ -599,10 +599,15 @@ func (txn *Txn) commitAndSend() (func() error, error) {
 	// var b strings.Builder
 	// fmt.Fprintf(&b, "Read: %d. Commit: %d. reads: %v. writes: %v. Keys: ",
 	// 	txn.readTs, commitTs, txn.reads, txn.conflictKeys)
-	for _, e := range txn.pendingWrites {
+	// The duplicateWrites slice holds, in call order, the entries that were
+	// replaced in pendingWrites by a later write of the same key with a
+	// different version. They must reach the writer before the pending entries:
+	// the writer applies entries in order and a later write of the same key and
+	// version has to win.
+	for _, e := range txn.duplicateWrites {
 		processEntry(e)
 	}
-	for _, e := range txn.duplicateWrites {
+	for _, e := range txn.pendingWrites {
 		processEntry(e)
 	}
 
